@@ -57,8 +57,11 @@ def scenario_grid():
                     continue
                 yield {'kind': kind, 'dt': dt, 'start': start, 'op': op, 'seed': 3, 'n0': 4, 'lens': [2, 1, 3]}
     # an operand of more than 10 MiB that is itself a Darr array, appended to an empty and to a non-empty array
+    # (6 rows of 2.8 MB: 16.8 MB, more than 16 MiB) - as a Darr array and as a plain ndarray
     for start in ('empty', 'nonempty'):
-        yield {'kind': 'array1d', 'dt': {'t': 'float64', 'bo': '<'}, 'start': start, 'op': 'append-darr', 'seed': 5, 'n0': 1, 'lens': [1, 1, 1], 'big': 350000}
+        for operand in ('darr', 'ndarray'):
+            yield {'kind': 'array1d', 'dt': {'t': 'float64', 'bo': '<'}, 'start': start, 'op': 'append-darr', 'seed': 5, 'n0': 1, 'lens': [1, 1, 1], 'big': 350000,
+                   'operand': operand}
 
 
 @st.composite
@@ -164,8 +167,8 @@ def build(spec, path):
             fn = lambda: a.append(chunks[0])
         else:
             big = spec.get('big')
-            rows = _vals(dt, (4, big), spec['seed'] + 50) if big else (np.concatenate(chunks, axis=0).astype(dt) if sum(spec['lens']) else chunks[0])   # (concatenate returns native byte order)
-            operand = darr.asarray(path + '_operand', rows)
+            rows = _vals(dt, (6, big), spec['seed'] + 50) if big else (np.concatenate(chunks, axis=0).astype(dt) if sum(spec['lens']) else chunks[0])   # (concatenate returns native byte order)
+            operand = darr.asarray(path + '_operand', rows, chunklen=2) if spec.get('operand') != 'ndarray' else rows
             if big:
                 import shutil
                 a = None
@@ -228,9 +231,28 @@ def materialise(state, path):
                 f.write(v[2])
 
 
+INPLACE = set()      # files (relative to the array directory) that the last traced operation opened for in-place rewriting ('r+' modes)
+
+
 def trace_states(path, fn, stop_at=None):
-    """Run fn under a line tracer limited to darr's own frames; return the list of distinct consecutive directory states."""
+    """Run fn under a line tracer limited to darr's own frames; return the list of distinct consecutive directory states.
+    While it runs, builtins.open / io.open are wrapped (harness side only) to note which files of the directory are opened for
+    rewriting in place - mode 'r+' without truncation - as opposed to 'w': only for those can an interrupted rewrite leave the new
+    text laid over the old one."""
+    import builtins, io
     states = [snapshot(path)]
+    INPLACE.clear()
+    real_open = builtins.open
+    root = os.path.realpath(path)
+
+    def noting_open(file, mode='r', *args, **kwargs):
+        try:
+            fp_ = os.path.realpath(os.fspath(file)) if not isinstance(file, int) else None
+            if fp_ and fp_.startswith(root + os.sep) and '+' in mode and 'w' not in mode and 'b' not in mode:
+                INPLACE.add(os.path.relpath(fp_, root))
+        except Exception:
+            pass
+        return real_open(file, mode, *args, **kwargs)
 
     def local(frame, event, arg):
         if event in ('line', 'return'):
@@ -247,11 +269,13 @@ def trace_states(path, fn, stop_at=None):
         return None
 
     old = sys.gettrace()
+    builtins.open = io.open = noting_open
     sys.settrace(glob)
     try:
         fn()
     finally:
         sys.settrace(old)
+        builtins.open = io.open = real_open
     s = snapshot(path)
     if s != states[-1]:
         states.append(s)
@@ -279,6 +303,11 @@ def torn_variants(a, b):
                 for frac in (4, 2):
                     cands.append(('torn:prefix', new[:len(new) // frac]))
                 cands.append(('torn:prefix', new[:-1]))
+                if old and rel in INPLACE:
+                    # the file was rewritten in place (opened 'r+', observed): a write cut short leaves the new text over the old tail
+                    for k in sorted({1, len(new) // 4, len(new) // 2, (3 * len(new)) // 4, len(new) - 1} | set(range(0, min(len(new), len(old)), 7))):
+                        if 0 < k < len(new):
+                            cands.append(('torn:new-over-old', new[:k] + old[k:]))
         elif old is not None:
             continue     # removal of a file is atomic
         mode = (vb or va)[1]
